@@ -287,6 +287,28 @@ C_MUTANTS = [
      "prnt('  *(%s)(p + %d) = %s;' % (type.get_c_name('*'), i*8, arg))", "prnt('  *(%s)(p + %d) = %s;' % (type.get_c_name('*'), i*4, arg))"),
     ('C14', ['generated by-address set'], 'src/cffi/recompiler.py',
      "                    tp.name == 'long double')", "                    tp.name in ('long double', 'double'))"),
+    ('C34', ['external kind test'], 'src/c/ffi_obj.c',
+     '        if ((s1->flags & (_CFFI_F_EXTERNAL | _CFFI_F_UNION))\n                == (s->flags & _CFFI_F_UNION)) {',
+     '        if ((s1->flags & _CFFI_F_UNION)\n                == (s->flags & _CFFI_F_UNION)) {'),
+    ('C34', ['wrong entry realized'], 'src/c/ffi_obj.c',
+     '            return _realize_c_struct_or_union(&ffi1->types_builder, sindex);',
+     '            return _realize_c_struct_or_union(&ffi1->types_builder, 0);'),
+    ('C34', ['realized by the wrong builder'], 'src/c/ffi_obj.c',
+     '            return _realize_c_struct_or_union(&ffi1->types_builder, sindex);',
+     '            return _realize_c_struct_or_union(&((FFIObject *)PyTuple_GET_ITEM(included_ffis, 0))->types_builder, sindex);'),
+    ('C34', ['python: kinds'], 'src/cffi/cparser.py',
+     "            if kind in ('struct', 'union', 'enum', 'anonymous', 'typedef'):\n                self._declare(name, tp, included=True, quals=quals)",
+     "            if kind in ('struct', 'union', 'anonymous', 'typedef'):\n                self._declare(name, tp, included=True, quals=quals)"),
+    ('C34', ['python: quals dropped'], 'src/cffi/cparser.py',
+     "                self._declare(name, tp, included=True, quals=quals)", "                self._declare(name, tp, included=True)"),
+    ('C34', ['python: silent replace'], 'src/cffi/cparser.py',
+     "            if not self._options.get('override'):\n                raise FFIError(\n                    \"multiple declarations of %s (for interactive usage, \"",
+     "            if not self._options.get('override') and not included:\n                raise FFIError(\n                    \"multiple declarations of %s (for interactive usage, \""),
+    ('C34', ['python: constants'], 'src/cffi/cparser.py',
+     "        for k, v in other._int_constants.items():\n            self._add_constants(k, v)",
+     "        for k, v in other._int_constants.items():\n            self._int_constants.setdefault(k, v)"),
+    ('C34', ['python: not marked included'], 'src/cffi/cparser.py',
+     "        if included:\n            self._included_declarations.add(obj)", "        if included and quals:\n            self._included_declarations.add(obj)"),
     ('C03', ['export table'], 'src/c/_cffi_backend.c',
      '    _cffi_to_c_i32,\n    _cffi_to_c_u32,', '    _cffi_to_c_u32,\n    _cffi_to_c_i32,'),
 ]
